@@ -3,6 +3,20 @@
 rules are silent (or triaged) on the unchanged tree and its mutants fire."""
 
 CLAIMED = {
+    "C06": dict(
+        category="other",
+        design_ref="DESIGN.md section 3 / C06",
+        technique="static analysis: typestate dataflow over the clang CFG (accounted-container analysis with helper "
+                  "summaries), seeded taint of sequence-number values, loop/wrap shape rule",
+        text="Decides three structural clauses, not the delivery behaviour: (R1) the buffered-bytes counter equals what "
+             "the out-of-order map holds - every insertion, erasure, in-place trim, replacement and move-out of a chunk "
+             "is matched by the right counter adjustment on every CFG path, including whether a moved chunk is really "
+             "consumed by the callee; (R2) two sequence numbers never meet in <,>,<=,>= outside the RFC1982 helpers "
+             "(necessary for wrap-safety); (R3) the cyclic walk over the sequence-keyed map wraps at every advance.",
+        note="Prefix/exactly-once delivery, overlap resolution and the legacy follower's equivalence are value-level and "
+             "NOT decided. Assumes std::vector move leaves the source empty and that users do not mutate the map through "
+             "the non-const accessor.",
+    ),
     "C13": dict(
         category="proof",
         design_ref="DESIGN.md section 3 / C13",
